@@ -95,8 +95,22 @@ def gen(n, seed):
     print(len(cands), "candidate sites;", len(plan), "planned;", per)
 
 
-def sh(cmd, **kw):
-    return subprocess.run(cmd, shell=True, stdout=subprocess.PIPE, stderr=subprocess.STDOUT, text=True, **kw)
+class _R:
+    def __init__(self, rc, out):
+        self.returncode, self.stdout = rc, out
+
+
+def sh(cmd, timeout=None, **kw):
+    """shell command in its own process group: on timeout the whole group is killed (a mutant may loop for ever)"""
+    import signal
+    p = subprocess.Popen(cmd, shell=True, stdout=subprocess.PIPE, stderr=subprocess.STDOUT, text=True, start_new_session=True, **kw)
+    try:
+        out, _ = p.communicate(timeout=timeout)
+        return _R(p.returncode, out)
+    except subprocess.TimeoutExpired:
+        os.killpg(p.pid, signal.SIGKILL)
+        p.communicate()
+        return _R(-999, "error: timeout (the suite does not terminate with this mutant)")
 
 
 def apply(repo, c):
@@ -142,7 +156,7 @@ def run(lane, i, j):
             res["status"] = "does-not-compile"
         else:
             r = sh("cargo test --workspace --no-fail-fast --offline -j 4 2>&1 | grep -E '^test .* FAILED|^error|panicked' | head -8",
-                   cwd=f"{base}/repo", env=env, timeout=2400)
+                   cwd=f"{base}/repo", env=env, timeout=900)
             fails = [l for l in r.stdout.splitlines() if re.match(r"test \S+ \.\.\. FAILED", l) and "test_repair_auth_unauth" not in l]
             if fails or r.stdout.startswith("error"):
                 res["status"] = "killed-by-suite"
@@ -153,7 +167,7 @@ def run(lane, i, j):
                 for chk in FILES[c["file"]]:
                     inner = (f"mount --bind {base}/repo /repo && mount --bind {base}/verif /verif && cd /verif && "
                              f"VERIF_NO_REPLAY_FILES=1 ./check {chk} --tier quick")
-                    rr = sh(f"unshare -m bash -c '{inner}'")
+                    rr = sh(f"unshare -m bash -c '{inner}'", timeout=3600)
                     first = [l.strip() for l in rr.stdout.splitlines() if l.startswith("  {")][:1]
                     det[chk] = dict(exit=rr.returncode, first=first, tail=rr.stdout.splitlines()[-2:] if rr.returncode == 2 else [])
                     if rr.returncode == 1:
